@@ -4524,3 +4524,35 @@ def cj1(proj, rep, modules=None):
         mm = proj.mod('numqi.utils')
         rep.ok('CJ1', 'scope', f'{n} `.real` reads scanned', mm, mm.tree, text='cj1 sweep')
     return n
+
+
+RULE_MR3 = ('MR3: an index packed as `B*u + v` inside a subscript, with u or v array-valued, takes its base B from a size name (n, dim, len(..)); a literal base >= 3 only separates '
+            'digits below that literal, and the labels here range over a size the caller chooses (vertex 10 of an 11-gon collides with (1, 0)).')
+
+
+def mr3(proj, rep, modules=None):
+    rep.rule('MR3', RULE_MR3)
+    n = 0
+    for m in proj.modules.values():
+        if not _in_scope(m, modules):
+            continue
+        for c in ast.walk(m.tree):
+            if not isinstance(c, ast.Subscript):
+                continue
+            for b in ast.walk(c.slice):
+                if not (isinstance(b, ast.BinOp) and isinstance(b.op, ast.Add)):
+                    continue
+                for side, other in ((b.left, b.right), (b.right, b.left)):
+                    if isinstance(side, ast.BinOp) and isinstance(side.op, ast.Mult):
+                        lit = next((x for x in (side.left, side.right) if isinstance(x, ast.Constant) and isinstance(x.value, int) and not isinstance(x.value, bool)), None)
+                        dig = side.right if lit is side.left else side.left
+                        n += 1
+                        if lit is not None and lit.value >= 3 and (any(isinstance(x, ast.Subscript) for x in ast.walk(dig)) or any(isinstance(x, ast.Subscript) for x in ast.walk(other))):
+                            rep.touch(m)
+                            rep.violation('MR3', m.name, f'`{ast.unparse(b)[:60]}` packs two labels with the literal base {lit.value}: labels >= {lit.value} collide (the base must be the '
+                                          f'size the labels range over)', m, b)
+    rep.count('MR3.packed_indices', n)
+    if n:
+        mm = proj.mod('numqi.utils')
+        rep.ok('MR3', 'scope', f'{n} packed index expressions scanned', mm, mm.tree, text='mr3 sweep')
+    return n
